@@ -22,7 +22,7 @@ FLOORS = {'quick': {'view-ctrlpts': 800, 'view-weights': 800, 'view-ctrlptsw': 8
                     'convert': 100, 'grid-weight': 150},
           'thorough': {'view-ctrlpts': 8000, 'view-ctrlptsw': 8000, 'convert': 1000}}
 MANDATORY_TAGS = ['pdim1', 'pdim2', 'pdim3', 'op:restructure', 'op:ctrlpts', 'op:weights', 'op:ctrlptsw', 'op:set_ctrlpts', 'op:scaleW',
-                  'read-then-write', 'grid', 'convert']
+                  'read-then-write', 'grid', 'convert', 'files:non-square']
 TECHNIQUE = ("runtime monitoring: shadow-model oracle (P, W) compared with all three views after every step of seeded "
              "setter/getter histories; exact-product oracles on the helper conversions; reference-model evaluation for "
              "conversions and weight scaling")
@@ -44,6 +44,8 @@ def gen(rng, tier, shard, nshards):
                    'seed': rng.randrange(1 << 30)}
         if i % 3 == 2:
             yield {'kind': 'grid', 'seed': rng.randrange(1 << 30)}
+        if i % 6 == 4:
+            yield {'kind': 'files', 'seed': rng.randrange(1 << 30)}
 
 
 def close(a, b, tol=1e-12):
@@ -53,7 +55,8 @@ def close(a, b, tol=1e-12):
 
 
 def check(case, ctx):
-    return {'history': check_history, 'helpers': check_helpers, 'convert': check_convert, 'grid': check_grid}[case['kind']](case, ctx)
+    return {'history': check_history, 'helpers': check_helpers, 'convert': check_convert, 'grid': check_grid,
+            'files': check_files}[case['kind']](case, ctx)
 
 
 def views_ok(ctx, o, P, W, after):
@@ -303,3 +306,55 @@ def check_grid(case, ctx):
     gr3 = g.grid
     ctx.check(all(close(gr3[i][j], [c * 2.5 for c in base[i][j]] + [2.5]) for i in range(rows) for j in range(cols)),
               'grid/scalar-weight', 'scalar weight not applied to every point', what='grid-weight')
+
+
+def check_files(case, ctx):
+    """the file-based variants of the 2-D helper conversions (documented layout: one line per u, ';' between the v entries)"""
+    import os
+    import shutil
+    import tempfile
+    from geomdl import compatibility
+    rng = random.Random(case['seed'])
+    nu, nv = rng.randint(1, 5), rng.randint(1, 5)
+    ctx.tag('files', 'files:square' if nu == nv else 'files:non-square')
+    ctx.nontriv(True)
+    grid = [[[float(rng.randint(-9, 9)), rng.uniform(-5, 5), rng.uniform(-5, 5), rng.choice([1.0, 0.5, 2.0, rng.uniform(0.2, 4)])]
+             for _ in range(nv)] for _ in range(nu)]
+    d = tempfile.mkdtemp(prefix='nv_c09_')
+    try:
+        def write(path, g):
+            with open(path, 'w') as f:
+                for row in g:
+                    f.write(';'.join(','.join(repr(c) for c in pt) for pt in row) + '\n')
+
+        def read(path):
+            with open(path) as f:
+                return [[[float(c) for c in cell.split(',')] for cell in line.strip().split(';')] for line in f.read().strip().split('\n')]
+        fin, fw, fback, fflip = (os.path.join(d, n) for n in ('in.txt', 'w.txt', 'back.txt', 'flip.txt'))
+        write(fin, grid)
+        compatibility.generate_ctrlptsw2d_file(fin, fw)
+        try:
+            gw = read(fw)
+        except ValueError:
+            gw = None
+        exp = [[[pt[k] * pt[3] for k in range(3)] + [pt[3]] for pt in row] for row in grid]
+        ctx.check(gw is not None and close(gw, exp), 'files/generate_ctrlptsw2d_file', 'generate_ctrlptsw2d_file on a %dx%d grid does not write '
+                  '(x*w, y*w, z*w, w) in the one-line-per-u layout' % (nu, nv), what='helper-inverse')
+        write(fw, exp)
+        compatibility.generate_ctrlpts2d_weights_file(fw, fback)
+        try:
+            gb = read(fback)
+        except ValueError:
+            gb = None
+        ctx.check(gb is not None and close(gb, grid), 'files/generate_ctrlpts2d_weights_file', 'generate_ctrlpts2d_weights_file is not the inverse '
+                  'of generate_ctrlptsw2d_file on a %dx%d grid' % (nu, nv), what='helper-inverse')
+        compatibility.flip_ctrlpts2d_file(fin, fflip)
+        try:
+            gf = read(fflip)
+        except ValueError:
+            gf = None
+        expf = [[grid[i][j] for i in range(nu)] for j in range(nv)]
+        ctx.check(gf is not None and close(gf, expf), 'files/flip_ctrlpts2d_file', 'flip_ctrlpts2d_file on a %dx%d grid does not write the '
+                  '[v][u] transposition' % (nu, nv), what='helper-inverse')
+    finally:
+        shutil.rmtree(d, ignore_errors=True)
